@@ -300,6 +300,27 @@ OPS = [("obstacle occupancy / state / signal queries", op_obstacle_queries), ("o
        ("== and hash", op_eq_hash), ("deepcopy", op_deepcopy), ("XML export", op_xml_export), ("protobuf export", op_pb_export)]
 
 
+class FixedArguments:
+    """two-operation histories: the operations' own arguments (time steps, query point) are fixed so that the forks are the
+    history, the state kind and the goal-lanelet table; the one-operation histories keep them symbolic"""
+
+    def __init__(self, V):
+        self._V = V
+
+    def __getattr__(self, name):
+        return getattr(self._V, name)
+
+    def int(self, name, lo=None, hi=None):
+        if name in ("query_time_step", "scenario_time_step", "light_time_step"):
+            return 1
+        return self._V.int(name, lo, hi)
+
+    def choice(self, name, n):
+        if name == "query_point_lanelet":
+            return 1
+        return self._V.choice(name, n)
+
+
 def _history(state_kind, steps, tier):
     @obligation("C18", f"history.{state_kind}.{steps}-ops", tier=tier, functions=F, max_paths={"quick": 4000, "thorough": 60000},
                 bounds=f"trajectory states of kind {state_kind}; goal-lanelet table none / dict / default dictionary; every sequence of {steps} read-only "
@@ -313,7 +334,7 @@ def _history(state_kind, steps, tier):
         for k in range(steps):
             i = V.choice(f"op_{k}", len(OPS))
             names.append(OPS[i][0])
-            OPS[i][1](V, sc, pps)
+            OPS[i][1](V if steps == 1 else FixedArguments(V), sc, pps)
         after = observe(V, sc, pps)
         compare(V, before, after, "after the read-only operations")
 
